@@ -24,13 +24,15 @@ TIERS = {"quick": dict(runs=2500, budget=40, det=12, chunk=20),
 INCONCLUSIVE_CEILING = 0.10
 RULE = ("seeded runs: LFDA (k, embedding_type, n_components in 1..d, unbalanced classes, classes "
         "smaller than k) fitted 2-3 times under different ARPACK start seeds and under forced "
-        "ArpackNoConvergence; Covariance (also singular covariance) and RCA (any chunk layout, "
+        "ArpackNoConvergence (also followed by a forced LinAlgError of the dense symmetric solver, "
+        "i.e. down to the last link eigsh -> eigh -> eig of the fallback chain); Covariance (also singular covariance) and RCA (any chunk layout, "
         "unknown chunk label -1, n_components in 1..d) fault-free; every fit compared with an "
         "independent O(n^2) evaluation of the definition on quantities invariant to eigenvector "
         "sign/rotation; non-trivial = >=1 fit compared (eigen-gap guard passed); distinct = distinct "
         "(estimator, options, seam mode, layout) signatures")
 REAL_VS_STUB = dict(real=["metric_learn Covariance/RCA/LFDA", "scipy ARPACK eigsh, eigh", "numpy"],
-                    stub=["ARPACK start vector (rng=<sim seed>)", "forced ArpackNoConvergence"])
+                    stub=["ARPACK start vector (rng=<sim seed>)", "forced ArpackNoConvergence",
+                          "forced LinAlgError of scipy.linalg.eigh for calls made from metric_learn/lfda.py"])
 ASSUMPTIONS = ["generalised eigenvectors are normalised Sw-orthonormal (the convention of scipy eigh/"
                "eigsh) for the 'plain' and 'weighted' embeddings",
                "comparison at relative tolerance 1e-6, only when the relevant eigen-gap exceeds 1e-6"]
@@ -68,7 +70,7 @@ def gen_plan(seed, tier):
     params["k"] = r.choice([None, None, 1, 2, 3, 5, 7, 9])
     params["embedding_type"] = r.choice(["weighted", "orthonormalized", "plain"])
     fits = [dict(mode="seeded", seed=r.randrange(2**31)) for _ in range(r.randint(1, 2))]
-    fits.insert(r.randrange(len(fits) + 1), dict(mode=r.choice(["fail", "seeded", "fail"]),
+    fits.insert(r.randrange(len(fits) + 1), dict(mode=r.choice(["fail", "seeded", "fail", "fail2"]),
                                                   seed=r.randrange(2**31)))
   elif cls == "RCA":
     params["n_components"] = r.choice([None] + list(range(1, d + 1)))
@@ -130,6 +132,7 @@ def run_plan(plan):
     for i, ft in enumerate(plan["fits"]):
       world.EIGSH.mode, world.EIGSH.seed = ft["mode"], ft["seed"]
       c0, f0 = world.EIGSH.calls, world.EIGSH.forced
+      g0 = world.EIGSH.eigh_forced
       est = getattr(ml, cls)(**p)
       with world.observed() as wl:
         try:
@@ -143,6 +146,8 @@ def run_plan(plan):
         except Exception as e:
           outcome, exc = "exc:" + type(e).__name__, e
       ncalls, nforced = world.EIGSH.calls - c0, world.EIGSH.forced - f0
+      nforced2 = world.EIGSH.eigh_forced - g0
+      cov["eigh_forced_linalgerror"] += nforced2
       world.EIGSH.mode = "seeded"
       cov["eigsh_calls"] += ncalls
       cov["eigsh_forced_noconv"] += nforced
@@ -217,9 +222,12 @@ def run_plan(plan):
         small = any(n_c - 1 < k_eff for n_c in np.unique(y, return_counts=True)[1])
         cov["lfda_class_smaller_than_k"] += int(small)
         cov["lfda_path_" + ("arpack" if ncalls and not nforced else
+                            "general_eig_after_two_forced_failures" if nforced2 else
                             "dense_after_forced_failure" if nforced else "dense")] += 1
         if e > TOL:
           which = _lfda_diagnose(X, y, dim, k_eff, p["embedding_type"], M, small)
+          if nforced2:
+            which += ",path=general_eig"
           raise Violation("formula", "cls=LFDA,%s" % which,
                           "M differs from the O(n^2) reference: relative %.3g (embedding %s, k=%r, "
                           "dim=%d, eigsh mode %s)" % (e, p["embedding_type"], k, dim, ft["mode"]))
